@@ -35,6 +35,9 @@ type FuncFacts struct {
 	in      []map[string]*Atom                 // must-hold facts at block entry (nil = unreachable/top)
 	done    bool
 	ids     map[ssa.Value]int
+	// ErrExit lets a rule reclassify specific returns as error exits (frozen, triaged
+	// `if err != nil { return nil }` instances).
+	ErrExit map[ssa.Instruction]bool
 }
 
 func (P *Program) Facts(fn *ssa.Function) *FuncFacts {
@@ -73,7 +76,7 @@ func pathKey(p []int) string {
 // forwardable reports whether every use of the alloc's address is a load, a store *to* it,
 // a field address (recursively), a call argument (treated as a kill) or a binding of a
 // closure that only runs deferred.
-func forwardable(a *ssa.Alloc) bool {
+func forwardable(a ssa.Value) bool {
 	var ok func(v ssa.Value) bool
 	ok = func(v ssa.Value) bool {
 		refs := v.Referrers()
@@ -190,6 +193,16 @@ func (ff *FuncFacts) forward() {
 			}
 		}
 	}
+	// pointer-to-struct parameters: stores through them forward to later loads as long as
+	// the pointer is not handed to a callee in between (aliases through other pointers are
+	// not modelled — DESIGN §7)
+	for _, p := range fn.Params {
+		if pt, ok := p.Type().Underlying().(*types.Pointer); ok {
+			if _, isStruct := pt.Elem().Underlying().(*types.Struct); isStruct && forwardable(p) {
+				bases[p] = true
+			}
+		}
+	}
 	if len(bases) == 0 {
 		return
 	}
@@ -221,7 +234,8 @@ func (ff *FuncFacts) forward() {
 				}
 				base, _ := addrPath(*r)
 				if bases[base] {
-					if _, isAlloc := (*r).(*ssa.Alloc); isAlloc || base != *r {
+					_, isParam := (*r).(*ssa.Parameter)
+					if _, isAlloc := (*r).(*ssa.Alloc); isAlloc || isParam || base != *r {
 						for s := range st {
 							if s.base == base {
 								st[s] = nil
@@ -817,6 +831,10 @@ func (ff *FuncFacts) Exits() []Exit {
 			}
 			if b == ff.Fn.Recover {
 				out = append(out, Exit{x, ExitBoth})
+				continue
+			}
+			if ff.ErrExit[x] {
+				out = append(out, Exit{x, ExitError})
 				continue
 			}
 			out = append(out, Exit{x, ff.classifyErr(x.Results[ei], b, map[ssa.Value]bool{})})
